@@ -133,7 +133,7 @@ def check(ctx):
                 'as on a history-free decoder (C07_history_independent); the repeat branch only accepts short inputs; correspondence: real IrProtocolBase.decode histories vs model; '
                 'search: all real protocols: histories (depth 1-2, thorough 3) over {full A, full B, repeat frame, garbage, encode()} x delivery of queued release callbacks '
                 '{immediately, before the probe, after the probe} x probe {B, A}; oracle = a fresh decoder. distinct = (protocol, history, delivery, probe)')
-    tabs, ok = engine_prove.prove(ctx, MODULES, with_obligations=False, with_wrappers=True, wrap_kinds=('c07',))
+    tabs, ok = engine_prove.prove(ctx, MODULES, with_obligations=False, with_wrappers=True, wrap_kinds=('c07', 'c08'), inst_kinds=('c07', 'c07h'))
     import fingerprint
     changed_p, changed_e = fingerprint.changed()
     r = vlib.rng('c07corr')
